@@ -23,7 +23,8 @@ impl Model for G {
     type Action = u8;
     fn init_states(&self) -> Vec<u8> { self.inits.clone() }
     fn actions(&self, s: &u8, a: &mut Vec<u8>) { a.extend(self.edges[*s as usize].iter().copied()) }
-    fn next_state(&self, _s: &u8, a: u8) -> Option<u8> { Some(a) }
+    /// an action >= 0x80 is offered by `actions` but ignored by `next_state` (returns None)
+    fn next_state(&self, _s: &u8, a: u8) -> Option<u8> { if a >= 0x80 { None } else { Some(a) } }
     fn within_boundary(&self, s: &u8) -> bool { self.bound & (1 << *s) != 0 }
     fn properties(&self) -> Vec<Property<Self>> {
         let conds: [fn(&G, &u8) -> bool; 3] = [c0, c1, c2];
@@ -34,7 +35,7 @@ impl Model for G {
 impl G {
     pub fn inb(&self, s: u8) -> bool { self.bound & (1 << s) != 0 }
     pub fn cond(&self, i: usize, s: u8) -> bool { self.props[i].1 & (1 << s) != 0 }
-    pub fn succ(&self, s: u8) -> Vec<u8> { self.edges[s as usize].iter().copied().filter(|t| self.inb(*t)).collect() }
+    pub fn succ(&self, s: u8) -> Vec<u8> { self.edges[s as usize].iter().copied().filter(|t| *t < 0x80 && self.inb(*t)).collect() }
     /// distance (in transitions) of every reachable in-boundary state from the in-boundary inits
     pub fn dist(&self) -> BTreeMap<u8, usize> {
         let mut d = BTreeMap::new();
@@ -58,7 +59,7 @@ impl G {
     pub fn reach(&self) -> BTreeSet<u8> { self.dist().keys().copied().collect() }
     /// a path is a real in-boundary execution from an init state
     pub fn is_exec(&self, p: &[u8]) -> bool {
-        !p.is_empty() && self.inits.contains(&p[0]) && p.iter().all(|s| self.inb(*s)) && p.windows(2).all(|w| self.edges[w[0] as usize].contains(&w[1]))
+        !p.is_empty() && self.inits.contains(&p[0]) && p.iter().all(|s| *s < 0x80 && self.inb(*s)) && p.windows(2).all(|w| self.edges[w[0] as usize].contains(&w[1]))
     }
     /// does some maximal in-boundary path from an init state (ending in a state without in-boundary
     /// successor, or looping forever) avoid the condition of property i everywhere?
@@ -121,6 +122,7 @@ pub struct Outcome {
     pub done: bool,
     pub finished: bool, // false: the checker did not stop within the time box
     pub panicked: bool, // the checker API panicked (e.g. discoveries() on an empty path)
+    pub labels_ok: bool, // every step of every discovery path carries the action that leads to the next state
 }
 
 #[derive(Clone, Debug, Default)]
@@ -140,7 +142,7 @@ fn path_states(p: Path<u8, u8>) -> Vec<u8> { p.into_states() }
 pub fn run(g: &G, strat: Strategy, o: &Opts) -> Outcome {
     match std::panic::catch_unwind(std::panic::AssertUnwindSafe(|| run_inner(g, strat, o))) {
         Ok(out) => out,
-        Err(_) => Outcome { visited: vec![], visited_paths: vec![], discoveries: Default::default(), unique: 0, total: 0, done: false, finished: false, panicked: true },
+        Err(_) => Outcome { visited: vec![], visited_paths: vec![], discoveries: Default::default(), unique: 0, total: 0, done: false, finished: false, panicked: true, labels_ok: true },
     }
 }
 
@@ -151,7 +153,7 @@ fn run_inner(g: &G, strat: Strategy, o: &Opts) -> Outcome {
     if let Some(t) = o.target_states { b = b.target_state_count(t); }
     if let Some(f) = &o.finish_when { b = b.finish_when(f.clone()); }
     fn collect(c: &dyn DynChecker, finished: bool) -> Outcome {
-        Outcome { visited: vec![], visited_paths: vec![], discoveries: c.disc(), unique: c.uniq(), total: c.total(), done: c.done(), finished, panicked: false }
+        Outcome { visited: vec![], visited_paths: vec![], discoveries: c.disc(), unique: c.uniq(), total: c.total(), done: c.done(), finished, panicked: false, labels_ok: c.labels_ok() }
     }
     let mut out = match strat {
         Strategy::Bfs => { let c = b.spawn_bfs().join(); collect(&c, true) }
@@ -159,17 +161,15 @@ fn run_inner(g: &G, strat: Strategy, o: &Opts) -> Outcome {
         Strategy::OnDemand => {
             let c = b.spawn_on_demand();
             c.run_to_completion();
+            // is_done() becomes true in every terminal case (market closed, or every property discovered);
+            // a generous time box, because the worker threads may be starved on a loaded machine
             let t0 = Instant::now();
-            let mut last = (usize::MAX, usize::MAX);
-            let mut stable = 0;
-            // done, or no progress for a while (early-exit conditions do not close the market promptly)
-            while t0.elapsed() < Duration::from_millis(1500) {
-                if c.is_done() { break; }
-                let cur = (c.state_count(), c.discoveries().len());
-                if cur == last { stable += 1; } else { stable = 0; last = cur; }
-                if stable > 40 { break; }
-                std::thread::sleep(Duration::from_millis(2));
+            while t0.elapsed() < Duration::from_secs(20) && !c.is_done() {
+                std::thread::sleep(Duration::from_millis(1));
             }
+            // let the workers finish the block they are in (is_done flips before the visitor of the last
+            // states has necessarily run when all properties are discovered)
+            std::thread::sleep(Duration::from_millis(2));
             let fin = c.is_done();
             collect(&c, fin)
         }
@@ -177,7 +177,7 @@ fn run_inner(g: &G, strat: Strategy, o: &Opts) -> Outcome {
             let mut c = b.spawn_simulation(o.seed, stateright::UniformChooser);
             let t0 = Instant::now();
             let hs = c.handles();
-            while t0.elapsed() < Duration::from_millis(1500) && !hs.iter().all(|h| h.is_finished()) {
+            while t0.elapsed() < Duration::from_secs(10) && !hs.iter().all(|h| h.is_finished()) {
                 std::thread::sleep(Duration::from_millis(1));
             }
             let fin = hs.iter().all(|h| h.is_finished());
@@ -205,12 +205,20 @@ pub trait DynChecker {
     fn uniq(&self) -> usize;
     fn total(&self) -> usize;
     fn done(&self) -> bool;
+    fn labels_ok(&self) -> bool;
 }
 impl<C: Checker<G>> DynChecker for C {
     fn disc(&self) -> BTreeMap<&'static str, Vec<u8>> { self.discoveries().into_iter().map(|(k, p)| (k, p.into_states())).collect() }
     fn uniq(&self) -> usize { self.unique_state_count() }
     fn total(&self) -> usize { self.state_count() }
     fn done(&self) -> bool { self.is_done() }
+    fn labels_ok(&self) -> bool {
+        // in G an action IS the state it leads to; the last element carries no action
+        self.discoveries().into_iter().all(|(_, p)| {
+            let v = p.into_vec();
+            v.windows(2).all(|w| w[0].1 == Some(w[1].0)) && v.last().map(|l| l.1.is_none()).unwrap_or(true)
+        })
+    }
 }
 
 /// Deterministic enumeration of small graphs: all edge sets over 3 states (self loops included) for
@@ -226,8 +234,14 @@ pub fn graphs(seed: u64, thorough: bool) -> Vec<(u8, Vec<u8>, Vec<Vec<u8>>, u16)
                 if code & (1 << (s * 3 + t)) != 0 { edges[s as usize].push(t); }
             }
         }
-        for (inits, bound) in [(vec![0u8], 0b111u16), (vec![0, 1], 0b111), (vec![0], 0b011), (vec![0], 0b101)] {
+        for (inits, bound) in [(vec![0u8], 0b111u16), (vec![0, 1], 0b111), (vec![0], 0b011), (vec![0], 0b101), (vec![0, 1], 0b101)] {
             out.push((3, inits, edges.clone(), bound));
+        }
+        // the same graph with an ignored action listed first / in the middle of every action list
+        if code % 5 == 0 {
+            let ign: Vec<Vec<u8>> = edges.iter().map(|e| { let mut v = vec![0x80u8]; for (k, t) in e.iter().enumerate() { v.push(*t); if k == 0 { v.push(0x81); } } v }).collect();
+            out.push((3, vec![0], ign.clone(), 0b111));
+            out.push((3, vec![0, 1], ign, 0b011));
         }
         code += step;
     }
